@@ -178,7 +178,7 @@ func (cur *FieldMask) addPath(path string, curDesc *thrift_reflection.TypeDescri
 
 		} else if styp == pathTypeField {
 			// get struct descriptor
-			st, err := curDesc.GetStructDescriptor()
+			st, err := structLikeDesc(curDesc)
 			if err != nil || st == nil {
 				return errDesc(curDesc, "isn't STRUCT")
 			}
